@@ -292,3 +292,64 @@ Proof.
   unfold node_parse. rewrite K. change (0 =? 0) with true. cbn iota.
   rewrite (trim_blank line B). rewrite R. reflexivity.
 Qed.
+
+(* ---------------------------------------------------------------- ASCII lines: the model is exact *)
+(* trim_u is strings.TrimSpace on arbitrary bytes (Unicode white space, UTF-8).  On a line whose bytes
+   are all below 0x80 it is the ASCII trim the dispatcher model uses. *)
+Definition ascii (l : list N) : Prop := Forall (fun b => b < 128) l.
+
+Lemma cond3_ascii a b c : a < 128 -> cond3 a b c = false.
+Proof.
+  intros H. unfold cond3.
+  replace (a =? 225) with false by (symmetry; apply N.eqb_neq; lia).
+  replace (a =? 226) with false by (symmetry; apply N.eqb_neq; lia).
+  replace (a =? 227) with false by (symmetry; apply N.eqb_neq; lia). reflexivity.
+Qed.
+Lemma useq_ascii l : ascii l -> useq l = match l with a :: _ => if is_space a then 1%nat else O | [] => O end.
+Proof.
+  intros H. destruct l as [|a t]; [reflexivity|]. inversion H as [|? ? Ha Ht]; subst. cbn [useq].
+  destruct (is_space a); [reflexivity|]. destruct t as [|b t2]; [reflexivity|].
+  replace (a =? 194) with false by (symmetry; apply N.eqb_neq; lia). cbn [andb].
+  destruct t2 as [|c t3]; [reflexivity|]. rewrite cond3_ascii by exact Ha. reflexivity.
+Qed.
+Lemma useq_r_ascii l : ascii l -> useq_r l = match l with a :: _ => if is_space a then 1%nat else O | [] => O end.
+Proof.
+  intros H. destruct l as [|z t]; [reflexivity|]. inversion H as [|? ? Hz Ht]; subst. cbn [useq_r].
+  destruct (is_space z); [reflexivity|]. destruct t as [|y t2]; [reflexivity|].
+  inversion Ht as [|? ? Hy Ht2]; subst.
+  replace (y =? 194) with false by (symmetry; apply N.eqb_neq; lia). cbn [andb].
+  destruct t2 as [|x t3]; [reflexivity|]. inversion Ht2; subst. rewrite cond3_ascii by assumption. reflexivity.
+Qed.
+Lemma strip_ascii sq : (forall l, ascii l -> sq l = match l with a :: _ => if is_space a then 1%nat else O | [] => O end) ->
+  forall fuel l, ascii l -> (length l <= fuel)%nat -> strip sq fuel l = trim_left l.
+Proof.
+  intros Hsq. induction fuel as [|f IH]; intros l Ha Hl.
+  - destruct l; [reflexivity|cbn in Hl; lia].
+  - cbn [strip]. rewrite Hsq by exact Ha. destruct l as [|a t]; [reflexivity|]. cbn [trim_left].
+    destruct (is_space a); [|reflexivity]. cbn [skipn]. inversion Ha; subst. apply IH; [assumption|cbn in Hl; lia].
+Qed.
+Lemma trim_left_ascii l : ascii l -> ascii (trim_left l).
+Proof.
+  induction 1 as [|a t Ha Ht IH]; cbn [trim_left]; [constructor|]. destruct (is_space a); [exact IH|constructor; assumption].
+Qed.
+Lemma trim_right_snoc l c : trim_right (l ++ [c]) = if is_space c then trim_right l else l ++ [c].
+Proof.
+  induction l as [|a l IH]; cbn [app trim_right]; [destruct (is_space c); reflexivity|].
+  rewrite IH. destruct (is_space c); [reflexivity|]. destruct (l ++ [c]) eqn:E; [|reflexivity].
+  destruct l; discriminate.
+Qed.
+Lemma trim_right_rev l : trim_right l = rev (trim_left (rev l)).
+Proof.
+  induction l as [|c l IH] using rev_ind; [reflexivity|].
+  rewrite trim_right_snoc, rev_app_distr. cbn [rev app trim_left].
+  destruct (is_space c); [exact IH|]. cbn [rev]. rewrite rev_involutive. reflexivity.
+Qed.
+
+Theorem ascii_trim_exact l : ascii l -> trim_u l = trim l.
+Proof.
+  intros H. unfold trim_u, trim. cbv zeta.
+  rewrite (strip_ascii useq useq_ascii (length l) l H (le_n _)).
+  pose proof (trim_left_ascii l H) as H1.
+  rewrite (strip_ascii useq_r useq_r_ascii) by (try (unfold ascii; apply Forall_rev; exact H1); rewrite rev_length; lia).
+  symmetry. apply trim_right_rev.
+Qed.
